@@ -12,6 +12,10 @@ Proof. apply map_length. Qed.
 Lemma vadd_length u v : length u = length v -> length (vadd u v) = length u.
 Proof. revert v; induction u as [|a u IH]; intros [|b v] H; simpl in *; try discriminate; auto. Qed.
 
+Lemma vadd_length_min u v : length (vadd u v) = Nat.min (length u) (length v).
+Proof. revert v; induction u as [|a u IH]; intros [|b v]; simpl; auto. Qed.
+Ltac lens := repeat (rewrite ?app_length, ?vadd_length_min, ?scale_length, ?map_length, ?repeat_length in * ); simpl length in *; try lia.
+
 Lemma dot_scale a ws xs : dot (scale a ws) xs == a * dot ws xs.
 Proof.
   revert xs; induction ws as [|w ws IH]; intros [|x xs]; simpl; try ring.
